@@ -56,6 +56,7 @@ func TestVerifC15Remote(t *testing.T) {
 	w := newVerifWriter(t, "c15_remote.jsonl")
 	defer w.close()
 	ctx := context.Background()
+	c15DrainPools(false, true)
 	ports := net.Get(2)
 	host := "127.0.0.1"
 	mk := func(name string, port int) ActorSystem {
